@@ -88,6 +88,41 @@ func rulesC15(w *World, r *Report) {
 			o.Trivial = ok && len(fact) > 9 && fact[:9] == "forwarded"
 		}
 	}
+	// writers of the library wrapped around the destination (bufio.Writer, a
+	// compressor …): their Write / Flush / Close report the destination's failure
+	// — possibly much later than the write that caused it — and are destination
+	// writes like the leaf itself.  bytes.Buffer and strings.Builder never fail.
+	for _, fn := range w.SrcFuncs() {
+		if !closure[fn] && !closure[rootFn(fn)] {
+			continue
+		}
+		for _, cs := range w.callSitesIn(fn) {
+			sc := cs.call.Call.StaticCallee()
+			if sc == nil || w.inPkg(sc) || sc.Signature.Recv() == nil || errIndex(sc.Signature) < 0 {
+				continue
+			}
+			rt := sc.Signature.Recv().Type()
+			ts := typeStr(rt)
+			if ts == "*bytes.Buffer" || ts == "*strings.Builder" {
+				continue
+			}
+			ms := types.NewMethodSet(rt)
+			isWriter := false
+			for i := 0; i < ms.Len(); i++ {
+				if ms.At(i).Obj().Name() == "Write" {
+					if sg, ok := ms.At(i).Type().(*types.Signature); ok && sg.Params().Len() == 1 && sg.Results().Len() == 2 {
+						isWriter = true
+					}
+				}
+			}
+			if !isWriter {
+				continue
+			}
+			nSites++
+			ok, fact := w.errConsumed(cs.call, errOpts{})
+			r.add("C15.R1 write-error consumed", fnName(fn)+" · "+cs.key()+" (library writer over the destination)", w.instrPos(cs.call), ok, fact)
+		}
+	}
 	// deferred (and go) calls: the language discards their results, so an error
 	// from a write issued in a defer can never reach the caller
 	for _, fn := range w.SrcFuncs() {
